@@ -304,7 +304,7 @@ impl std::fmt::Display for Scad {
                 if let Some(paths) = paths {
                     write!(
                         f,
-                        "polygon(points={}, paths={} convexity={});",
+                        "polygon(points={}, paths={}, convexity={});",
                         points, paths, convexity
                     )?;
                 } else {
